@@ -16,3 +16,17 @@ def add_to(run):
     run.assumptions.append("window_patterns lemma: Case-pattern semantics of Amaranth assumed (digit matches bit, '-' matches anything, length must equal "
                            "the value's width); 32-bit evaluation exact for widths <= 15; domain: ratio-1 windows whose start is a multiple of their size")
     discharge_all(run, fv.obs, timeout_ms=60000)
+    # the same loop body over mathematical integers: every address width
+    try:
+        fv2 = c.verify_window_patterns_all_widths()
+    except Unsupported as e:
+        run.functions["amaranth_soc.memory.MemoryMap.window_patterns [all widths]"] = f"unsupported: {e} (widths <= 15 by the bit-vector lemma; per-configuration clauses decide)"
+        run.bounded_notes.append(f"window_patterns all-widths lemma: source outside the exact-integer subset on this tree ({e})")
+        return
+    run.functions["amaranth_soc.memory.MemoryMap.window_patterns [all widths]"] = \
+        f"proved for every address width ({len(fv2.obs)} obligations, integers; pow2 by three ground instances of Lean lemmas pow2_pos / pow2_add)"
+    run.require("MemoryMap.window_patterns[all widths]::pattern-matches-exactly-the-window")
+    run.assumptions.append("window_patterns all-widths lemma: Python's >> / << / // on ints encoded as floor division / multiplication by 2**n over mathematical "
+                           "integers; 2**n as an uninterpreted function with ground instances pow2(w) > 0, pow2(aw-w) > 0, pow2(aw) = pow2(w) * pow2(aw-w) "
+                           "(Lean: Pow2.lean, Align.lean pow2_add); Case-pattern semantics assumed as for the bit-vector lemma; domain: ratio-1 windows at multiples of their size")
+    discharge_all(run, fv2.obs, timeout_ms=30000)
